@@ -122,11 +122,12 @@ func (c *Cache) srcFS(p string) (srcFS filesystem.Filespace, src string) {
 
 // Copy duplicate a file or directory
 func (c *Cache) Copy(src, dest string) error {
-	var srcFS filesystem.Filespace
-	srcFS, src = c.srcFS(src)
+	src = varutil.CleanPath(src)
 	dest = varutil.CleanPath(dest)
+	// the source is the cache view itself: a directory that exists in the buffer and in
+	// the remote filespace must be copied with the nodes of both
 	if err := (fshelper.Copier{
-		SrcFS:    srcFS,
+		SrcFS:    c,
 		SrcPath:  src,
 		DestFS:   c.bufferFS,
 		DestPath: dest,
@@ -140,10 +141,9 @@ func (c *Cache) Copy(src, dest string) error {
 
 // CopyDirectory duplicate a directory
 func (c *Cache) CopyDirectory(src, dest string) error {
-	var srcFS filesystem.Filespace
-	srcFS, src = c.srcFS(src)
+	src = varutil.CleanPath(src)
 	dest = varutil.CleanPath(dest)
-	if !srcFS.IsDir(src) {
+	if !c.IsDir(src) {
 		return goaterr.Errorf("Source node must be a directory")
 	}
 	return c.Copy(src, dest)
@@ -151,10 +151,9 @@ func (c *Cache) CopyDirectory(src, dest string) error {
 
 // CopyFile duplicate a file
 func (c *Cache) CopyFile(src, dest string) error {
-	var srcFS filesystem.Filespace
-	srcFS, src = c.srcFS(src)
+	src = varutil.CleanPath(src)
 	dest = varutil.CleanPath(dest)
-	if !srcFS.IsFile(src) {
+	if !c.IsFile(src) {
 		return goaterr.Errorf("Source node must be a file")
 	}
 	return c.Copy(src, dest)
